@@ -17,6 +17,7 @@ def base_scenarios(rng, n):
     for k in range(n):
         sc = gen.rand_scenario(rng, max_attempts=(1, 4), p_special=0.0, p_budget=0.2, p_breaker=0.3, p_handler=0.4, p_abort=0.0, ncalls=(1, 1), placements=(k % 3 == 0), p_no_sleeper=0.25)
         sc["poll"] = k % 4 != 3
+        sc["poll_kind"] = ["bool", "int", "str", "obj"][k % 4]  # abort_if may answer with any truthy / falsy value
         if sc["place"]["before_sleep"] == "none" and k % 2:
             sc["place"]["before_sleep"] = "call"
         sc["bs_kind"] = ["sync", "async"][k % 2]
@@ -109,7 +110,7 @@ def work(ctx, tier):
     # poll placement on ordinary random scenarios (abort_if configured, never true or true at random index)
     n = (4000 if tier == "quick" else 100000) // ctx.nshards
     for k in range(n):
-        sc = gen.rand_scenario(rng, p_special=0.05, specials=("abort", "cancel", "kbd", "sysexit"), p_budget=0.3, p_handler=0.4, p_abort=0.5, p_breaker=0.2, ncalls=(1, 2), p_no_sleeper=0.3)
+        sc = gen.rand_scenario(rng, p_special=0.05, specials=("abort", "cancel", "kbd", "sysexit"), p_budget=0.3, p_handler=0.4, p_abort=0.5, p_breaker=0.2, ncalls=(1, 2), p_no_sleeper=0.3, poll_kinds=True)
         sc["poll"] = True
         for e in common.pick_entries(rng, rig.ENTRIES, 2):
             _run(ctx, sc, e, stats, "random")
